@@ -385,6 +385,7 @@ def main():
                            'case, with the launch / successor orders recorded from the real chart',
                       runs_of_plain_programs=int(st.get('plain_programs_runs', 0)),
                       hypotheses_hold=int(st.get('plain_hypotheses_hold', 0)),
+                      hypotheses_of_C06_hold=int(st.get('plain_c06_hypotheses_hold', 0)),
                       deadlocks_of_the_real_engine_on_them=int(st.get('plain_deadlocks', 0))),
                   input_distribution={k: v for k, v in sorted(agg['dist'].items())},
                   corpus=dict(fixed_defects_replayed=corpus.get('n_fixed', 0), known_findings_replayed=[k['id'] for k in corpus.get('known', [])]),
